@@ -115,6 +115,9 @@ DENSE_PIECES = [[0xFB], [0xFB], [0xFB], [0xED, 0x57], [0xED, 0x57], [0xED, 0x5F]
                 [0x3C], [0xDD, 0x23], [0xCB, 0x46], [0xED, 0x78], [0xF5, 0xF1], [0xED, 0x4F], [0xDD, 0xCB, 0x00, 0x06], [0xD3, 0xFE],
                 [0xED, 0x57, 0xF5, 0xF1], [0xFB, 0x76], [0xDD, 0xFB], [0xFD, 0x76], [0xED, 0xA2], [0x06, 0x05, 0x10, 0xFE]]
 
+AFTER_EI = [[0xED, 0x57], [0xDD, 0x23], [0xCB, 0x46], [0x3C], [0xED, 0x78], [0xDD], [0xFB], [0xFB, 0xCB, 0x07], [0x00], [0xFD, 0xCB, 0x00, 0x46],
+            [0xED, 0xA2], [0xF5, 0xF1], [0xC9]]
+
 LDIR_SHAPES = [(0x4000, 0x4001, 4000), (0x5800, 0x5801, 700), (0x9000, 0xA000, 4000), (0xC000, 0xE000, 3000), (0x0000, 0xA000, 4000),
                (0xAFFF, 0xAFFE, 3000)]
 
@@ -184,9 +187,18 @@ def cases(draw, tier):
         base = draw(st.sampled_from(SAFE_BASES[is128]))
         vpage = draw(st.sampled_from([0x7C, 0xBC] if is128 else [0x7C, 0xBC, 0xFD]))
         vbyte = draw(st.sampled_from([v for v in (0x65, 0x9A, 0xB5) if not base - 0x100 <= v * 257 <= base + 0x500]))
-    if draw(st.sampled_from([False, False, True])):
+    conv = draw(st.sampled_from([0, 0, 0, 1, 1, 2, 2, 3, 3]))
+    focus2 = False
+    if draw(st.sampled_from([False, False, True])) or (conv and draw(st.booleans())):
         # dense: a short loop made of the instructions the frame-end rules care about
         parts = draw(st.lists(st.sampled_from(DENSE_PIECES), min_size=1, max_size=5))
+        if conv & 2:
+            focus2 = True
+            parts = [q for q in parts[:draw(st.integers(0, 2))] if 0x76 not in q]
+            for a in draw(st.lists(st.sampled_from(AFTER_EI), min_size=1, max_size=3)):
+                parts.insert(draw(st.integers(0, len(parts))), [0xFB] + a)
+        if conv & 1:
+            parts.insert(draw(st.integers(0, len(parts))), draw(st.sampled_from([[0xFB, 0xED, 0x57], [0xFB, 0xED, 0x5F, 0xF5, 0xF1], [0xED, 0x57, 0xE5, 0xF5, 0xE1, 0x77]])))
     else:
         parts = draw(st.lists(_safe_piece(vpage), min_size=1, max_size=20 if tier == 'quick' else 36))
     for _ in range(draw(st.integers(0, min(wild_max, 12)))):
@@ -196,7 +208,7 @@ def cases(draw, tier):
     for p in parts:
         code.extend(p)
     tail = draw(st.sampled_from(['jp', 'jp', 'jp', 'jp', 'halt-loop', 'halt-loop', 'none' if wild else 'jp']))
-    if tail == 'jp':
+    if tail == 'jp' or focus2:
         code += [0xC3] + _w(base)
     elif tail == 'halt-loop':
         code += [0xFB, 0x76, 0xC3] + _w(base)
@@ -258,7 +270,7 @@ def cases(draw, tier):
         'in_mode': draw(st.sampled_from(['const', 'const', 'frame', 'frame', 'stream', 'stream'])),
         'in_vals': draw(st.lists(st.one_of(st.sampled_from([0xFF, 0xBF, 0xFE, 0x1F, 0x00]), st.integers(0, 255)), min_size=1, max_size=6)),
         'in_seed': draw(st.integers(0, 2 ** 32 - 1)),
-        'conv': draw(st.sampled_from([0, 0, 0, 1, 1, 2, 2, 3])),
+        'conv': conv,
         'flag4': draw(st.booleans()),
         'splits': splits,
         'fmt': draw(st.sampled_from(['szx', 'z80'])),
@@ -477,7 +489,7 @@ def record(case):
     bounds = []            # state after the frame-end rule of frame k-1 (index k-1)
     ends = []              # what the frame ended on
     block_starts = [0]
-    stats = {'accepted': 0, 'im2': 0, 'halt_release': 0, 'ldair': 0, 'ei_block': 0, 'bit_hl': False, 'steps': 0}
+    stats = {'accepted': 0, 'im2': 0, 'halt_release': 0, 'ldair': 0, 'ei_block': 0, 'ei_short2': 0, 'bit_hl': False, 'steps': 0}
     short = False          # the next frame is a one-instruction frame (flag 2 convention)
     nt = 0                 # index into the T-length cycle
     pending_split = False
@@ -520,6 +532,8 @@ def record(case):
             if regs[25] >= limit:
                 break
         frames.append((fetch, bytes(tracer.readings)))
+        if short and fetch == 2:
+            stats['ei_short2'] += 1
         # ---- frame end ----------------------------------------------------
         regs[25] = 0
         end = 'other'
@@ -957,6 +971,8 @@ def oracle(case, rec=None):
             klass.append('ldair-flag-reset')
         if stats['ei_block']:
             klass.append('ei-short-frame')
+        if stats['ei_short2']:
+            klass.append('ei-short-frame:2-fetches')
         if recording.paged:
             klass.append('paged')
         if markers_used:
